@@ -325,6 +325,7 @@ def check(ctx):
                    f"the next operation",
                    key=f"C08.7:{f.qualname}:cached")
 
+    _derived(ctx, prog)
     # --------------------------------------------------------------- C08.8
     from ..core import import_rules
     n = import_rules(ctx, "c04", ("C04.3", "C04.4"), "C08.8")
@@ -362,6 +363,99 @@ def _is_bool_param(m: Function, p: str) -> bool:
         return ann is not None and ast.unparse(ann) == "bool"
     except Exception:
         return False
+
+
+def _derived(ctx, prog):
+    """C08.7 (definitions): path length = arc length of the positions,
+    accumulated distances = accumulated_distances(positions), duration =
+    last - first timestamp, speed k = |p_(k+1) - p_k| / (t_(k+1) - t_k) for
+    all consecutive pairs — each read through the public views."""
+    selfp = tm.param("self")
+    pos = tm.attr(selfp, "positions_xyz")
+    ts = tm.attr(selfp, "timestamps")
+    # views are read through the lazy getters: do not inline them here
+    plain = Interp(prog, inline=lambda fn: False, inline_properties=False,
+                   auto_inline=False)
+
+    def final(fq):
+        f = prog.func(fq)
+        return f, plain.run(f).ret
+    f, ret = final(f"{PATH}.path_length")
+    core = ret.args[1][0] if is_call_to(ret, "builtins.float") and \
+        ret.args[1] else ret
+    ok = is_call_to(core, "evo.core.geometry.arc_len") and core.args[1] and \
+        core.args[1][0] is pos
+    ctx.ob("C08.7", f, bool(ok),
+           "path_length = arc_len(positions_xyz)" if ok else
+           f"path_length is {fmt(ret)}", key="C08.7:def:path_length")
+    fa = prog.func("evo.core.geometry.arc_len")
+    xa = tm.param(fa.params[0])
+    ra = plain.run(fa).ret
+    S1_ = T("slice", const(1), tm.NONE, tm.NONE)
+    SM1_ = T("slice", tm.NONE, const(-1), tm.NONE)
+    nrm = ra.args[1][0] if is_call_to(ra, "numpy.sum", ".sum") and \
+        ra.args[1] else (tm.method_recv(ra) if is_call_to(ra, ".sum")
+                         else None)
+    ok = nrm is not None and is_call_to(nrm, "numpy.linalg.norm") and \
+        nrm.args[1] and nrm.args[1][0].op == "binop" and \
+        nrm.args[1][0].args[0] == "Sub" and \
+        {nrm.args[1][0].args[1], nrm.args[1][0].args[2]} == {
+            tm.sub(xa, SM1_), tm.sub(xa, S1_)} and \
+        tm.is_const(dict(nrm.args[2]).get("axis", tm.NONE), 1)
+    ctx.ob("C08.7", fa, bool(ok),
+           "arc_len = sum of the consecutive step lengths |x_k - x_(k+1)|"
+           if ok else f"arc_len is {fmt(ra)}", key="C08.7:def:arc_len")
+    f, ret = final(f"{PATH}.distances")
+    ok = is_call_to(ret, "evo.core.geometry.accumulated_distances") and \
+        ret.args[1] and ret.args[1][0] is pos
+    ctx.ob("C08.7", f, bool(ok),
+           "distances = accumulated_distances(positions_xyz)" if ok else
+           f"distances is {fmt(ret)}", key="C08.7:def:distances")
+    f = prog.func("evo.core.trajectory.calc_speed")
+    r = plain.run(f)
+    x1, x2, t1, t2 = (tm.param(p_) for p_ in f.params[:4])
+    core = r.ret.args[1][0] if is_call_to(r.ret, "builtins.float") and \
+        r.ret.args[1] else r.ret
+    ok = core.op == "binop" and core.args[0] == "Div" and \
+        is_call_to(core.args[1], "numpy.linalg.norm") and \
+        core.args[1].args[1] and \
+        core.args[1].args[1][0].op == "binop" and \
+        core.args[1].args[1][0].args[0] == "Sub" and \
+        {core.args[1].args[1][0].args[1],
+         core.args[1].args[1][0].args[2]} == {x1, x2} and \
+        core.args[2] is T("binop", "Sub", t2, t1)
+    ctx.ob("C08.7", f, bool(ok),
+           "calc_speed = |xyz_2 - xyz_1| / (t_2 - t_1)" if ok else
+           f"calc_speed is {fmt(r.ret)}", key="C08.7:def:calc_speed")
+    f, ret = final(f"{TRAJ}.speeds")
+    ok = None
+    why = fmt(ret)[:120]
+    for alt in tm.strip_ite(ret):
+        arr = alt.args[1][0] if is_call_to(alt, "numpy.array") and \
+            alt.args[1] else alt
+        if arr.op != "comp":
+            continue
+        elt = arr.args[1]
+        if not is_call_to(elt, "evo.core.trajectory.calc_speed") or \
+                len(elt.args[1]) != 4 or arr.args[3]:
+            continue
+        a = [seq_position(x) for x in elt.args[1]]
+        if None in a or any(q[2] is None for q in a):
+            continue
+        offs = [q[1] for q in a]
+        seqs = [q[3] for q in a]
+        cnt = min(q[2] for q in a)
+        ok = offs == [0, 1, 0, 1] and seqs[0] is pos and seqs[1] is pos \
+            and seqs[2] is ts and seqs[3] is ts and cnt == -1
+        why = f"offsets {offs}, count n{cnt:+d}"
+    if ok is None:
+        ctx.undecidable("C08.7", f, f"speeds: form not recognised: {why}")
+    else:
+        ctx.ob("C08.7", f, ok,
+               "speeds[k] = calc_speed(p_k, p_(k+1), t_k, t_(k+1)) for all "
+               "n-1 consecutive pairs" if ok else
+               f"speeds deviates from consecutive pose pairs: {why}",
+               key="C08.7:def:speeds")
 
 
 def _same_ids(t: T, ids: T):
